@@ -27,6 +27,8 @@ a literal copy of the Python text is decided HERE, once, and is what must be rea
   every double including `-0.0`; NaN stays NaN).
 * `min(a, b)` / `max(a, b)` on floats (`fmin` / `fmax`): CPython's rule — the first argument unless the
   second is strictly smaller / strictly greater.
+* `x ** y` and `pow(x, y)` with a float operand are a parameter `pow : α → α → α` (C's `pow`; the exceptions Python
+  raises for `0.0 ** -1` or a negative base with a fractional exponent are NOT modelled).
 * `math.sqrt`, `math.sin`, … are NOT interpreted: they are function parameters of the generated definition
   (`sqrt : α → α`), instantiated by libm in the driver and by Mathlib's real functions in theorems. Their
   `ValueError` on a domain error (e.g. `math.sqrt(-1.0)`) is NOT modelled.
@@ -82,6 +84,14 @@ variable {α : Type}
 /-- float `a / b` -/
 @[inline] def fdiv [Div α] [LE α] [DecidableLE α] [OfNat α 0] (a b : α) : M α :=
   if feq b 0 then .error .zerodiv else .ok (a / b)
+
+/-- proof helper: a division that did not raise is the plain division -/
+theorem bind_fdiv_ok [Div α] [LE α] [DecidableLE α] [OfNat α 0] {β : Type} {a b : α} {f : α → M β} {v : β}
+    (h : bind (fdiv a b) f = .ok v) : f (a / b) = .ok v := by
+  unfold fdiv at h
+  by_cases hz : feq b 0 = true
+  · rw [ite_pos' hz] at h; exact nomatch h
+  · rw [ite_neg' hz] at h; exact h
 
 /-- `math.fabs(v)`, `abs(v)` on a float -/
 @[inline] def fabs [Sub α] [LT α] [DecidableLT α] [OfNat α 0] (v : α) : α := if 0 < v then v else 0 - v
